@@ -161,6 +161,7 @@ namespace {
       std::vector<const void*>* nodes;
       void note(const std::string& s) { sched::Quiet q; trace->append(s); trace->push_back('\n'); }
       void node(const ipr::Node& n) { sched::Quiet q; nodes->push_back(static_cast<const void*>(&n)); }
+      void node(const ipr::Transfer& x) { sched::Quiet q; nodes->push_back(static_cast<const void*>(&x)); }
       void op() { sched::point(4); }
    };
 
@@ -267,7 +268,19 @@ namespace {
       s.note(&lex.get_as_type(lex.get_identifier(u8"int")) == static_cast<const ipr::Type*>(&lex.int_type()) ? "int by name" : "int LOOK-ALIKE");
       s.note(&lex.get_as_type(lex.get_identifier(u8"unsigned long long")) == static_cast<const ipr::Type*>(&lex.ulong_long_type()) ? "ull by name" : "ull LOOK-ALIKE");
       s.note(lex.specifiers(ipr::Basic_specifier{ lex.get_logogram(lex.get_string(u8"static")) }) == lex.static_specifier() and lex.decompose(lex.const_qualifier() | lex.volatile_qualifier()).size() == 2 ? "specifier basis" : "specifier basis WRONG");
+      auto& xc = lex.get_transfer_from_linkage(lex.c_linkage());
+      auto& xc2 = lex.get_transfer(lex.get_linkage(u8"C"), lex.get_calling_convention(u8""));
+      auto& xs = lex.get_transfer_from_convention(lex.get_calling_convention(u8"stdcall"));
+      s.node(xc); s.node(xc2); s.node(xs);
+      {
+         ipr::impl::Warehouse<ipr::Type> w;
+         w.push_back(lex.int_type());
+         auto& f = lex.get_function(lex.get_product(w), lex.void_type(), xc);
+         s.node(f);
+         s.note(f.transfer() == xc and f.linkage() == lex.c_linkage() ? "extern C function type" : "extern C function type WRONG");
+      }
       auto& x = lex.get_transfer(lex.get_linkage(u8"Java"), lex.get_calling_convention(u8"fastcall"));
+      s.node(x);
       s.note(std::string(reinterpret_cast<const char*>(x.linkage().language().what().characters().data()), x.linkage().language().what().characters().size()));
    }
 
@@ -288,6 +301,17 @@ namespace {
       G.declare_type(e->id.get(), lex.enum_type())->init = e;
       s.op();
       s.note(print_unit(lex, unit, false));
+#ifdef C20_TSAN
+      {
+         // (free-running pass only: under the scheduler every byte written is a scheduling point)
+         // a statement nested 24 blocks deep (72 columns of indentation), printed on its own
+         ipr::impl::Block* outer = lex.make_block(G);
+         ipr::impl::Block* cur = outer;
+         for (int d = 0; d < 24; ++d) { auto* inner = lex.make_block(cur->region()); cur->add_stmt(*inner); cur = inner; }
+         cur->add_stmt(*lex.make_return(*lex.make_literal(lex.int_type(), u8"1")));
+         s.note(print_one(lex, ipr::xpr_stmt(*outer)));
+      }
+#endif
       s.note("members " + std::to_string(static_cast<const ipr::Class&>(*c).members().size()) + " enumerators " + std::to_string(static_cast<const ipr::Enum&>(*e).members().size()));
    }
 
@@ -313,6 +337,7 @@ namespace {
          u8"typename", u8"union", u8"unsigned char", u8"unsigned int", u8"unsigned long", u8"unsigned long long", u8"unsigned short", u8"virtual", u8"void", u8"volatile", u8"wchar_t", u8"" };
       for (auto r : reserved) { w.insert(static_cast<const ipr::Node*>(&lex.get_string(r))); w.insert(static_cast<const ipr::Node*>(&lex.get_identifier(r))); }
       w.insert(static_cast<const ipr::Node*>(&ipr::String::empty_string()));
+      w.insert(static_cast<const void*>(&ipr::impl::cxx_transfer()));
       return w;
    }
 
